@@ -143,6 +143,10 @@ def stateEntry (s : Sys) (X : Vec) (idx : Nat → Nat → Nat) (flat : List Rat)
       let full := interpOwnAll X (idx v) (s.nom v) o s.tsL
       if j < s.k then full.dropLast.getD i 0 else full.tail.getD i 0
 
+/-- columns of `interpolated_states` that variable `j` with its own time stamps overwrites, with
+    the part of its interpolant that goes there (`0`: `interpolated[:-1]`, `1`: `interpolated[1:]`) -/
+def ownCols (k j : Nat) : List (Nat × Nat) := [(j, 0), (k + j, 1)]
+
 /-- row `i` of `interpolated_states`: `2k` entries -/
 def stateCols (s : Sys) (X : Vec) (idx : Nat → Nat → Nat) (i : Nat) : List Rat :=
   let flat := interpolatedFlat X idx s.nom s.k s.n
